@@ -132,6 +132,69 @@ def seed_mutants(pid: str):
     return out
 
 
+def _verdict_keys(pid: str, root: str):
+    """canonical keys of the new violations (and known-finding hits) the property's rules report on the tree under `root`"""
+    from .report import Report, load_known, VIOLATION
+    from .model import RepoModel, canon_key
+    mod = importlib.import_module(f"sa.rules.{pid.lower()}")
+    ev = tempfile.mkdtemp(prefix="sa-rob-ev-")
+    try:
+        model = RepoModel(root)
+        rep = Report(pid, "quick", ev, root)
+        mod.run(model, rep, "quick")
+        try:
+            rep.finish(KNOWN_FINDINGS, quiet=True, emit=False)
+        except AnalysisError as e:
+            return {"@analysis-error: " + str(e)[:160]}
+        return {canon_key(i.key) for i in rep.instances if i.status == VIOLATION}
+    except AnalysisError as e:
+        return {"@analysis-error: " + str(e)[:160]}
+    finally:
+        shutil.rmtree(ev, ignore_errors=True)
+
+
+def _robust_one(args):
+    pid, repo, mode, base = args
+    from . import benign
+    tmp = tempfile.mkdtemp(prefix=f"sa-rob-{pid}-{mode}-")
+    try:
+        _copy_tree(repo, tmp)
+        n = 0
+        for d, _, fs in os.walk(os.path.join(tmp, SRC_REL)):
+            for fn in fs:
+                if fn.endswith(".py"):
+                    pth = os.path.join(d, fn)
+                    with open(pth, encoding="utf-8") as f:
+                        src = f.read()
+                    try:
+                        out = benign.transform(src, mode)
+                        compile(out, pth, "exec")
+                    except Exception as e:
+                        return (mode, "REWRITE-FAILED", f"{fn}: {type(e).__name__}: {e}"[:200])
+                    with open(pth, "w", encoding="utf-8") as f:
+                        f.write(out)
+                    n += 1
+        got = _verdict_keys(pid, tmp)
+        if got == base:
+            return (mode, "SAME", f"{n} files rewritten; identical set of {len(got)} violation key(s)")
+        return (mode, "DIFFERENT", f"only on the rewritten tree: {sorted(got - base)[:3]}; only on the original: {sorted(base - got)[:3]}")
+    except Exception:
+        return (mode, "ERROR", traceback.format_exc(limit=2)[-300:])
+    finally:
+        shutil.rmtree(tmp, ignore_errors=True)
+
+
+def robustness(pid: str, repo: str):
+    """the rules of <pid> on fifteen behaviour-preserving rewrites of the tree under analysis (sa/benign.py): the set of reported
+    violations must be the one reported on the tree itself.  Informational: a difference is fragility of the checker and is written
+    to the evidence; it does not change the verdict about the repository."""
+    from . import benign
+    base = _verdict_keys(pid, repo)
+    jobs = [(pid, repo, m, base) for m in benign.MODES]
+    with cf.ProcessPoolExecutor(max_workers=min(15, len(jobs))) as ex:
+        return list(ex.map(_robust_one, jobs))
+
+
 def run_for_property(pid: str, repo: str, evidence_dir: str, quiet: bool = False) -> int:
     mod = importlib.import_module(f"sa.rules.{pid.lower()}")
     muts = getattr(mod, "MUTANTS", [])
@@ -154,6 +217,16 @@ def run_for_property(pid: str, repo: str, evidence_dir: str, quiet: bool = False
             ev = json.load(f)
     except Exception:
         ev = None
+    t1 = time.time()
+    rob = robustness(pid, repo)
+    if ev is not None:
+        ev["coverage"]["checker_robustness"] = {
+            "rewrites": len(rob), "same_verdict": len([r for r in rob if r[1] == "SAME"]),
+            "different": [{"rewrite": r[0], "result": r[1], "detail": r[2]} for r in rob if r[1] != "SAME"],
+            "note": "behaviour-preserving rewrites of a scratch copy of the tree under analysis (sa/benign.py: layout, local names, void statements, "
+                    "guard clauses, polarity, operand order, temporaries ...); the rules must report the same violations as on the tree itself",
+            "wall_s": round(time.time() - t1, 2),
+        }
     if ev is not None:
         ev["coverage"]["checker_selftest"] = {
             "mutants": len(results), "detected": len(detected),
@@ -173,6 +246,10 @@ def run_for_property(pid: str, repo: str, evidence_dir: str, quiet: bool = False
             print(f"  SELFTEST-{r[1]} {r[0]}: {r[2]}")
         for r in skipped:
             print(f"  SELFTEST-SKIPPED {r[0]}: {r[2]}")
+        print(f"[{pid}] checker robustness: {len([r for r in rob if r[1] == 'SAME'])}/{len(rob)} behaviour-preserving rewrites give the same verdict")
+        for r in rob:
+            if r[1] != "SAME":
+                print(f"  ROBUSTNESS-{r[1]} {r[0]}: {r[2]}")
     if bad:
         print(f"ANALYSIS-ERROR property={pid} checker self-test failed for {len(bad)} mutant(s); the checker, not the repository, is at fault")
         return 2
